@@ -223,6 +223,10 @@ def def_lines(spec, n):
         elif form == "alias":
             ref = rf[2] if len(rf) > 2 else "al_%s_%s" % (n["name"], tname)
             aliases.append("%s = %s" % (ref, tname))
+        elif form in ("pwrap", "lwrap"):
+            # a plain helper reached through a functools wrapper object (not a function)
+            ref = "%s_%s_%s" % ("pw" if form == "pwrap" else "lw", n["name"], tname)
+            aliases.append("%s = %s" % (ref, ("functools.partial(%s)" if form == "pwrap" else "functools.lru_cache(maxsize=None)(%s)") % tname))
         else:
             ref = sym(t)
         if form == "hdr":
@@ -257,7 +261,7 @@ def import_lines(spec, mod):
 
 def render_module(spec, mod, order_rng=None, plain=False):
     imp = "def memento_function(**kw):\n    return lambda f: f" if plain else "from twosigma.memento import memento_function"
-    out = ["import builtins", imp] + import_lines(spec, mod) + [""]
+    out = ["import builtins", "import functools", imp] + import_lines(spec, mod) + [""]
     mine = [n for n in spec["nodes"] if n["module"] == mod]
     if order_rng is not None:
         mine = list(mine)
